@@ -495,6 +495,23 @@ def c10d_extended(xi: int, ordered: bool, explicit: bool) -> bool:
     return fin(ok)
 
 
+def c10_strict_alias_mapping_per_rule() -> bool:
+    """Witness form for known finding c10-alias-targets-mapped-for-unmapped-rules: an alias target is renamed only
+    for the referenced rules the field mapping item was applied to."""
+    from sigma.backends.test import TextQueryTestBackend
+
+    docs = [
+        {"title": "w", "name": "win_logon", "logsource": {"product": "windows"}, "detection": {"sel": {"User": "admin"}, "condition": "sel"}},
+        {"title": "l", "name": "lin_logon", "logsource": {"product": "linux"}, "detection": {"sel": {"User": "root"}, "condition": "sel"}},
+        {"title": "c", "correlation": {"type": "temporal", "rules": ["win_logon", "lin_logon"], "group-by": ["account"], "timespan": "5m", "aliases": {"account": {"win_logon": "User", "lin_logon": "User"}}}},
+    ]
+    p = ProcessingPipeline.from_dict({"name": "p", "priority": 1, "transformations": [{"type": "field_name_mapping", "mapping": {"User": "winlog.user"}, "rule_conditions": [{"type": "logsource", "product": "windows"}]}]})
+    out = TextQueryTestBackend(p).convert(SigmaCollection.from_dicts(docs))
+    q = out[-1]
+    lin = q[q.index('User="root"'):]
+    return "set account=User" in lin.split("}")[0]
+
+
 def c10b_concrete(ti: int, kinds_csv: str, gb: int, gen: bool, pipe: bool, finalize: bool, typing: bool) -> bool:
     return check_structure(ti, [int(x) for x in kinds_csv.split(",")], gb, gen, pipe, finalize, typing)
 
